@@ -217,6 +217,47 @@ pub fn run_sink(case: &Value) -> Value {
             });
             sdrive!(lazy, ns(), fuel)
         }
+        "for_each" => {
+            let l2 = logs[0].clone();
+            sdrive!(sinktools::for_each(move |x: u64| l2.borrow_mut().push(json!(["s", x, 1]))), ns(), fuel)
+        }
+        "try_for_each" => {
+            let q = Q::parse(&case["q"]);
+            let l2 = logs[0].clone();
+            sdrive!(
+                sinktools::try_for_each(move |x: u64| -> Result<(), u8> {
+                    let ok = !q.ap(x);
+                    l2.borrow_mut().push(json!(["s", x, ok as u8]));
+                    if ok { Ok(()) } else { Err(7) }
+                }),
+                ns(),
+                fuel
+            )
+        }
+        "send_iter" => {
+            let mut fut = std::pin::pin!(sinktools::send_iter(ns().into_iter(), rec(0)));
+            let mut cx = Context::from_waker(Waker::noop());
+            let mut left = fuel;
+            let mut tr: Vec<Value> = Vec::new();
+            let mut out = "fuel";
+            while left > 0 {
+                left -= 1;
+                match fut.as_mut().poll(&mut cx) {
+                    Poll::Ready(Ok(())) => {
+                        tr.push(json!(["r", 0]));
+                        out = "fin";
+                        break;
+                    }
+                    Poll::Ready(Err(_)) => {
+                        tr.push(json!(["r", 2]));
+                        out = "fail";
+                        break;
+                    }
+                    Poll::Pending => tr.push(json!(["r", 1])),
+                }
+            }
+            (out, tr)
+        }
         other => return json!({ "bad_case": format!("unknown sink adaptor {other}") }),
     };
     json!({
